@@ -327,7 +327,7 @@ func runC15(w *World, r *Report, tier string) {
 			if !ok {
 				return
 			}
-			out = append(out, rendering{w.pathConds(path), strAtoms(rt.Results[0]), w.ipos(rt)})
+			out = append(out, rendering{w.pathConds(path), strAtoms(rres(path, rt)[0]), w.ipos(rt)})
 		})
 		return out
 	}
